@@ -1,1 +1,30 @@
-"""Predicates of the known findings listed in /verif/known_findings.json (matched by site + input)."""
+"""Predicates of the open known findings listed in /verif/known_findings.json.
+Each takes (harness, violation dict with 'model'/'detail'/'name', text of the failures seen in the concrete replay)
+and returns True iff this violation IS that finding: same call site and the characteristic input."""
+from __future__ import annotations
+
+
+def _graph_edges(model, tag="G"):
+    e = {}
+    for k, v in model.get("inputs", {}).items():
+        if k.startswith(tag + "e_"):
+            _, i, j = k.split("_")
+            e[(int(i), int(j))] = int(v)
+    return e
+
+
+def _has_isolated_vertex(n, edges):
+    deg = [0] * n
+    for (i, j), v in edges.items():
+        if v:
+            deg[i] += 1
+            deg[j] += 1
+    return any(d == 0 for d in deg)
+
+
+def f2_isolated_vertex(h, viol, ftxt):
+    """TimeReversedSolver raises IndexError for a target with an isolated vertex"""
+    if "IndexError" not in ftxt or "time_reversed_solver.py" not in ftxt:
+        return False
+    n = h.params["n"]
+    return _has_isolated_vertex(n, _graph_edges(viol["model"]))
